@@ -94,6 +94,8 @@ def main():
     wd = int(os.environ.get("VERIF_WATCHDOG_S", "0"))
     if wd:
         faulthandler.dump_traceback_later(wd, exit=True)
+    import seams
+    seams.arm_tripwires()
     cmd = sys.argv[1]
     {"run": cmd_run, "exec": cmd_exec, "shrink": cmd_shrink}[cmd](sys.argv[2:])
     sys.stdout.flush()
